@@ -777,7 +777,9 @@ type preState struct {
 
 func (w *World) preDeliver(n *Node, d *DeliveredRec) {
 	d.epoch = n.epoch
-	ps := &preState{hv: n.hv(), gated: len(n.gates) > 0, nStores: len(n.obs.stores), nSends: len(n.obs.sends), nRegs: len(n.obs.registrations), nCommits: len(n.obs.commits), nVals: len(n.obs.validations)}
+	// "gated": the worker cannot take this message now (blocked SPI call, timed retry pause, held by the harness)
+	busy := len(n.gates) > 0 || n.wakeAt > 0 || (n.ctrl != nil && (n.ctrl.hold || n.ctrl.state != wsIdle))
+	ps := &preState{hv: n.hv(), gated: busy, nStores: len(n.obs.stores), nSends: len(n.obs.sends), nRegs: len(n.obs.registrations), nCommits: len(n.obs.commits), nVals: len(n.obs.validations)}
 	ps.inComm = w.inCommittee(ps.hv.h, n.id)
 	if d.msg != nil && d.msg.Kind == KNV {
 		_, ps.hadPP = n.st.inner.GetPreprepareMessage(primitives.BlockHeight(d.msg.NVH), primitives.View(d.msg.NVV))
